@@ -34,12 +34,30 @@ def nontrivial(case, res):
     return dd and bool(res)
 
 
-def triage(case):
+PLACEHOLDER = 'ZqZplaceholderZqZ'
+
+
+def f4_explains(drv, case, fmt, sp, res):
+    """C01_F4 (all-constant rule over an empty logical source, evaluated on a one-row placeholder frame): the difference is
+    attributed to it only if nothing is missing and every extra statement is one the generation rules prescribe once each
+    empty table is given a single placeholder row, and does not carry a value of that row (i.e. it is data-free)."""
+    if not drv or not cc.scope_allconst_empty(case) or any(x not in res for x in sp):
+        return False
+    extra = [x for x in res if x not in sp]
+    c2 = cc.Case(case.dir, case.doc, {p: (rows or [{c: PLACEHOLDER for c in case.columns[p]}]) for p, rows in case.tables.items()},
+                 case.columns)
+    sp2 = set(cc.spec(drv, c2, fmt=fmt))
+    return all(x in sp2 and PLACEHOLDER not in x for x in extra)
+
+
+def triage(case, drv=None, fmt=None, sp=None, res=None):
     if cc.scope_template_clash(case.doc):
         return 'C01_F1'
     if cc.scope_constant_braces(case.doc):
         return 'C01_F3'
-    if cc.scope_allconst_empty(case):
+    if sp is None:
+        return 'C01_F4' if cc.scope_allconst_empty(case) else None
+    if f4_explains(drv, case, fmt, sp, res):
         return 'C01_F4'
     return None
 
@@ -69,7 +87,8 @@ def one_case(ctx, drv, case, fmt):
         if sp != res:
             missing = [x for x in sp if x not in res][:3]
             extra = [x for x in res if x not in sp][:3]
-            ctx.violation(f'result differs from the generation rules: missing {missing!r}, extra {extra!r}', inp, finding=triage(case))
+            ctx.violation(f'result differs from the generation rules: missing {missing!r}, extra {extra!r}', inp,
+                          finding=triage(case, drv, fmt, sp, res))
 
 
 def run(ctx, lean, findings):
@@ -81,7 +100,8 @@ def run(ctx, lean, findings):
     for it in range(n):
         case = cc.make_case(rng, os.path.join(ctx.tmp, f'c{it}'))
         one_case(ctx, drv, case, rng.choice(['N-TRIPLES', 'N-QUADS']))
-        if ctx.tier == 'quick' and ctx.elapsed() > 75 and not ctx.escalate:
+        if not ctx.escalate and ctx.elapsed() > (75 if ctx.tier == 'quick' else 780):
+            ctx.notes.append(f'time cap reached after {it + 1} cases')
             break
     # recorded findings, minimal replays
     for f in findings:
